@@ -482,6 +482,60 @@ def combo_worker(job):
         case.cleanup()
 
 
+def fusion_chain(case, out, seed, rng, genome, anno, txs):
+    """a CHAIN of fusions: B -> C with the donor breakpoint inside an intron of B, and A -> B with A
+    ranked before B — B's variant series is loaded twice in one run (as the accepter of A's fusion,
+    then on its own turn).  Same metamorphic relation: both records together = union."""
+    import copy
+    import random as _r
+    from moPepGen import fake
+    order = sorted(txs, key=lambda t: (anno.transcripts[t].transcript.location.start, t))
+    f1 = f2 = None
+    for _ in range(400):
+        _r.seed(rng.randrange(1 << 30))
+        b = rng.choice(order[1:])
+        try:
+            f = fake.fake_fusion(anno, genome, b)
+            g = copy.deepcopy(f)
+            g.shift_breakpoint_to_closest_exon(anno)
+        except Exception:   # noqa
+            continue
+        if g.attrs.get('LEFT_INSERTION_START') is None:
+            continue
+        f1 = f
+        break
+    if f1 is None:
+        out['stats']['no_intronic_fusion'] = 1
+        return out
+    b = f1.attrs['TRANSCRIPT_ID']
+    before = order[:order.index(b)]
+    for _ in range(400):
+        _r.seed(rng.randrange(1 << 30))
+        a = rng.choice(before)
+        try:
+            f = fake.fake_fusion(anno, genome, a)
+        except Exception:   # noqa
+            continue
+        if f.attrs['ACCEPTER_TRANSCRIPT_ID'] == b:
+            f2 = f
+            break
+    if f2 is None:
+        out['stats']['no_chain'] = 1
+        return out
+    out['stats']['fusion_chain_intronic'] = 1
+    kw = cv_explore.default_kw(rng, True, None)
+    out['desc'] = {'seed': seed, 'kw': kw, 'donor': b, 'fusions': [f1.id, f2.id], 'chain': True}
+    runs = {}
+    for tag, recs in (('first', [f1]), ('second', [f2]), ('both', [f1, f2])):
+        with gen_ref.quiet():
+            gen_ref.write_gvfs(case, [copy.deepcopy(x) for x in recs])
+        r = gen_ref.run_call_variant(case, tag=tag, **kw)
+        runs[tag] = {'status': r.status, 'real': sorted(r.fasta.keys())}
+    out['runs'] = runs
+    out['stats']['runs'] = 1
+    return out
+
+
 def fusion_pair_worker(job):
     """three genes; TWO fusion records that leave the donor at the SAME breakpoint for different
     acceptors (STAR-Fusion reports such rows for multi-mapping partners).  Metamorphic: the run
@@ -498,6 +552,8 @@ def fusion_pair_worker(job):
             gen_ref.make_reference(case, seed, 3)
             genome, anno, _ = gen_ref.load_reference(case)
         txs = list(anno.transcripts.keys())
+        if rng.random() < 0.34:
+            return fusion_chain(case, out, seed, rng, genome, anno, txs)
         donor = txs[rng.randrange(len(txs))]
         fus = {}
         for _ in range(300):
